@@ -45,6 +45,8 @@ def gen(ch, tier):
                 window=ch.pick('window', 1 << 16), wsize=24 if tier == 'quick' else 96, accept=ch.coin('accept', 1, 2),
                 fixup=ch.coin('fixup', 2, 3), dst_key=ch.choice('dstkey', ('right', 'right', 'right', 'wrong', 'missing')))
     plan['split_assoc'] = plan['tgt_ext'] and ch.coin('split', 1, 2)
+    # the bundle is sent from a service endpoint of the node: bundle source and security source differ
+    plan['svc_source'] = ch.coin('svcsrc', 1, 3)
     if kind.startswith('sign1') and ch.coin('cert', 1, 4):
         # signed with the right private key, but the certificate (of the trusted CA) names another node or none: not the key of this source
         plan['cert'] = ch.choice('certk', ('other-id', 'no-id'))
@@ -122,7 +124,7 @@ def make_copy(plan, har, seqno):
     seqno = seq_code(seqno)
     payload = bc.body(seqno, plan['plen'])
     if not plan['kind'].startswith('foreign'):
-        return sc.source_bundle(har, seqno, payload, _ext_blocks(plan), pri_crc=plan['pri_crc'], pay_crc=plan['blk_crc'])
+        return sc.source_bundle(har, seqno, payload, _ext_blocks(plan), pri_crc=plan['pri_crc'], pay_crc=plan['blk_crc'], source='dtn://s/svc7' if plan.get('svc_source') else None)
     pri = dict(flags=0, crc_type=plan['pri_crc'], destination='dtn://d/app', source='dtn://s/', report_to='dtn:none',
                create_time=820000000000, seqno=seqno, lifetime=3600000)
     blocks = []
@@ -364,7 +366,7 @@ def _drive(run, plan, har):
     if plan['kind'] == 'two-bib':
         return _drive_two(run, plan, har)
     stats = run.stats
-    cfg = bc.digest({key: plan[key] for key in ('kind', 'plen', 'tgt_ext', 'split_assoc', 'others', 'pri_crc', 'blk_crc', 'dst_key', 'accept', 'cert') if key in plan} | {'scope': plan.get('scope')})
+    cfg = bc.digest({key: plan[key] for key in ('kind', 'plen', 'tgt_ext', 'split_assoc', 'others', 'pri_crc', 'blk_crc', 'dst_key', 'accept', 'cert', 'svc_source') if key in plan} | {'scope': plan.get('scope')})
     kindtag = 'kind.' + ('mac0' if plan['kind'].startswith('mac0') else ('sign1' if plan['kind'].startswith('sign1') else (
         'mac-kw' if plan['kind'] == 'foreign-kw' else 'foreign')))
     stats[kindtag] = 1
@@ -383,6 +385,11 @@ def _drive(run, plan, har):
     if not sc.sec_blocks(orig0, rfc9171.TYPE_BIB):
         run.viols.append(('setup', 'no-bib', 'the transmitted bundle carries no integrity block although policy demands one'))
         return
+    if not plan['kind'].startswith('foreign'):
+        diff = sc.policy_targets_covered(orig0, rfc9171.TYPE_BIB, [1, 192] if plan['tgt_ext'] else [1])
+        if diff:
+            run.viols.append(('produce', 'policy-targets-not-covered', 'integrity: ' + diff))
+            return
     # independent check of what the source produced
     if plan['kind'] != 'mac-kw-skip':
         bib = sc.sec_blocks(orig0, rfc9171.TYPE_BIB)[0]
